@@ -24,7 +24,7 @@ RULE = ("seeded histories over (subject config A, bystander config B): ops in {u
         "traced A via one reused Pipeline object, traced/untraced B}; A is fault-free or carries one failure "
         "(config-borne or injected, any node). distinct_nontrivial = distinct (A digest, history digest) in which at "
         "least two traced runs of A at the same detail level and one untraced run of A were executed."
-        " Further seeded dimensions: lazy one-shot stream payloads, payloads whose __len__/__repr__ raise, result object fed back into a reused Pipeline, second run in a fresh interpreter under another hash seed, two CLI launches with a reproducible launch id, and (8 %) two caller threads tracing concurrently as the first traced runs of a fresh interpreter under the thread engine.")
+        " Further seeded dimensions: lazy one-shot stream payloads, payloads whose __len__/__repr__ raise, result object fed back into a reused Pipeline, second run in a fresh interpreter under another hash seed, two CLI launches with a reproducible launch id, and (8 %) two caller threads tracing concurrently as the first traced runs of a fresh interpreter under the thread engine. Seventh round: a stochastic leaf with the global PRNG seeded before every run, one orchestrator shared with a sibling configuration.")
 REAL_COMPONENTS = ["Pipeline / orchestrator incl. all trace branches", "JsonlTraceDriver", "DeltaCollector", "trace._utils",
                    "node factory, generated classes", "graph_builder / semantic ids (pipeline_start content)"]
 STUB_COMPONENTS = ["leaf processors (svsim.lib)", "RecordingExecutor", "SimClock/SimUUID (advance between runs)"]
